@@ -16,6 +16,7 @@ import ThriftVerif.Generated.C11Schema
   ver <hex>                          supportDataTrailer
   pca <hex>                          ParseCompactArguments + Pack
   exe <run> <decoded> <err> <feedok> <stderr> <nwarn> <ncontents>   executeOutcome
+  gen <nlanguages> <nplugins>        plugin executions per Generate call
 -/
 namespace Driver.C11
 open Wire Gen Gen.Std Plugin Driver.GenVL
@@ -244,6 +245,15 @@ def handleLine (last : Bytes) (line : String) : Bytes × String :=
     | some s => doPca s
     | none => "bad-op"
   | "exe" :: rest => doExe rest
+  | ["gen", nl, np] =>
+    match nl.toNat?, np.toNat? with
+    | some nl, some np =>
+      let descs := List.range np
+      let calls := generateCalls true descs nl []
+      if calls.all (fun c => c.all (fun x => x.2 == some x.1)) then
+        s!"ok {calls.length} {" ".intercalate (calls.map fun c => toString c.length)}"
+      else "panic"
+    | _, _ => "bad-op"
   | _ => "bad-op"
 
 def step (last : Bytes) (line : String) : Bytes × String :=
